@@ -1,4 +1,5 @@
 """C02  Filtering verdict follows rule precedence and the requester's blocking mode."""
+import json
 import os
 import re
 from concurrent.futures import ThreadPoolExecutor
@@ -52,7 +53,22 @@ def describe(e, reasons):
     return s
 
 
+def _ctie(e):
+    """The profile's own allow rule for the host is at least as specific (urlfilter: number of modifiers)
+    as every matching shared allow rule; computed from the concrete rule texts of the slots."""
+    v, rules = e["v"], e["conc"]["rules"]
+    if v["c"] != "allow":
+        return False
+
+    def spec(slot):
+        return max([1 if "$" in r else 0 for r in rules[slot] if r.startswith("@@")] or [0])
+    shared = [spec(sl) for sl, cls in (("rl1", v["r1"]), ("rl2", v["r2"])) if cls == "allow"]
+    return spec("custom") >= max(shared or [0])
+
+
 def validate(c, name, events):
+    for e in events:
+        e["ctie"] = _ctie(e)
     path = os.path.join(c.scratch, name + ".ndjson")
     write_ndjson(path, events)
     r = c.tlc_trace("TraceFiltering", "TraceFiltering.cfg", path, timeout=1200)
@@ -109,6 +125,22 @@ def run(c: Check):
         raise Undecided("too few lines recorded: %d filter-level, %d full-stack" % (len(flt), len(full)))
 
     bad = validate(c, "c02_flt", flt) + validate(c, "c02_full", full)
+
+    # ---- secondary configuration: safety filters whose replacement host is an IP address
+    out_ip, _ = c.go_harness("internal/filter/hashprefix", "^TestVerifC02SafetyIP$", files=["c02ip_test.go", "c12_test.go"],
+                             env={"VERIF_REPS": 6 if th else 2})
+    ipev = read_ndjson(out_ip)
+    if len(ipev) < 150:
+        raise Undecided("safety-IP harness recorded only %d lines" % len(ipev))
+    ippath = os.path.join(c.scratch, "c02_ip.ndjson")
+    write_ndjson(ippath, ipev)
+    rip = c.tlc_trace("TraceSafetyIP", "TraceSafetyIP.cfg", ippath, timeout=600)
+    if rip.tuples("STUCK") or (not rip.ok and not rip.tuples("NONCONF")):
+        raise Undecided("safety-IP trace run failed:\n%s" % rip.out[-2000:])
+    ipbad = rip.tuples("NONCONF")
+    c.cov["traces_validated_against_impl"] += len(ipev) - len(ipbad)
+    for e in ipev:
+        c.count_case(("safety-ip", e["fam"], e["mode"], e["qt"], e["listed"], e["host"]), nontrivial=e["listed"])
 
     # ---- vacuity accounting (a verdict from the real code outranks it: see the end)
     vac = []
@@ -172,7 +204,12 @@ def run(c: Check):
         c.violation({"kind": "nonconf", "h": e["h"], "vec": vec_key(e["v"]), "mode": e["mode"], "qt": e["qt"],
                      "ups": e["ups"], "reason": (first[0] if first else reasons)[:80]},
                     describe(e, reasons), e)
-    if vac and not bad:
+    for t in ipbad:
+        e = ipev[int(t[0]) - 1]
+        c.violation({"kind": "safety-ip", "mode": e["mode"], "qt": e["qt"], "fam": e["fam"]},
+                    "C02 safety filter with replacement address %s: %s %s (listed=%s) for a profile in %s mode, TTL %d -> %s: %s" % (
+                        e["repl"], e["host"], e["qt"], e["listed"], e["mode"], e["ttl"], json.dumps(e["res"]), t[1]), e)
+    if vac and not bad and not ipbad:
         raise Undecided("; ".join(vac))
     c.assumptions += [
         "the concretiser's rule templates (||h^, |h^, @@, $dnstype=T / ~T, $dnsrewrite=IP / NOERROR;A;IP / name / "
